@@ -345,6 +345,25 @@ fn program(case: &[i128]) -> Option<Prog> {
             };
             Prog { body: body.to_string(), has_lens: false, kind: Kind::Seal }
         }
+        50 => {
+            // code generic over the sequence type: the result type after a round trip must be S itself
+            let (bound, body) = match v {
+                0 => ("Lengthen<u8>", "s.append(7u8).pop_back().0"),
+                2 => ("Lengthen<u8>", "s.prepend(7u8).pop_front().1"),
+                1 => ("Shorten<u8>", "{ let (init, last) = s.pop_back(); init.append(last) }"),
+                3 => ("Shorten<u8>", "{ let (head, tail) = s.pop_front(); tail.prepend(head) }"),
+                _ => return None,
+            };
+            let call_len = if v == 1 || v == 3 { n + 1 } else { n };
+            let body = format!(
+                "pub fn round<S: {}>(s: S) -> S {{ {} }}\npub fn call(x: {}) -> {} {{ round(x) }}\n",
+                bound,
+                body,
+                ga("u8", call_len),
+                ga("u8", call_len)
+            );
+            Prog { body, has_lens: false, kind: Kind::Length }
+        }
         _ => return None,
     })
 }
@@ -515,6 +534,12 @@ fn cases(tier: &str, rng: &mut Rng) -> Vec<Vec<i128>> {
     }
     for v in 0..3 {
         push(40, v, 0, 0, -1, 0);
+    }
+    // 50 round trips in code generic over the sequence type
+    for v in 0..4 {
+        for n in [0i128, 1, 3] {
+            push(50, v, n, 0, -1, 0);
+        }
     }
     // seeded extras: random lengths up to 40 for the two-parameter operations
     let extra = if th { 60 } else { 8 };
